@@ -47,3 +47,73 @@ def wickNormalForm (pattern : List (Nat × Bool)) : List WItem :=
   wnormalize (pattern.length * pattern.length + 1) [⟨[], pattern, false⟩]
 
 end Model
+
+/-! ### the spin-free variant (`spinfree = True`): operators also carry a spin slot (position mod rank); a contraction
+    inside one slot doubles the factor, a contraction between two slots merges them; at the end creators and
+    annihilators are bubble-sorted by slot, every swap flipping the sign.  Executable model, tied to the library by the
+    correspondence run (`wicknfsf`); its soundness theorem is not proved. -/
+namespace Model
+
+structure WItemSF where
+  deltas : List (Nat × Nat)
+  ops : List (Nat × Bool × Nat)        -- (label, dagger, slot)
+  neg : Bool
+  twos : Nat                           -- factor = ± 2^twos
+deriving Repr, DecidableEq
+
+def splitPairSF : List (Nat × Bool × Nat) →
+    Option (List (Nat × Bool × Nat) × (Nat × Bool × Nat) × (Nat × Bool × Nat) × List (Nat × Bool × Nat))
+  | [] => none
+  | [_] => none
+  | x :: y :: post =>
+    if x.2.1 = false ∧ y.2.1 = true then some ([], x, y, post)
+    else (splitPairSF (y :: post)).map (fun r => (x :: r.1, r.2.1, r.2.2.1, r.2.2.2))
+
+def wstepSF (it : WItemSF) : List WItemSF :=
+  match splitPairSF it.ops with
+  | none => [it]
+  | some (pre, x, y, post) =>
+    let rest := pre ++ post
+    let contracted : WItemSF :=
+      if y.2.2 = x.2.2 then ⟨it.deltas ++ [(x.1, y.1)], rest, it.neg, it.twos + 1⟩
+      else ⟨it.deltas ++ [(x.1, y.1)],
+            rest.map (fun o => if o.2.2 = y.2.2 then (o.1, o.2.1, x.2.2) else o), it.neg, it.twos⟩
+    [⟨it.deltas, pre ++ [y, x] ++ post, !it.neg, it.twos⟩, contracted]
+
+def wnormalizeSF : Nat → List WItemSF → List WItemSF
+  | 0, l => l
+  | fuel+1, l =>
+    let out := l.flatMap wstepSF
+    if l.any (fun it => (splitPairSF it.ops).isSome) then wnormalizeSF fuel out else out
+
+/-- one sweep `for j in range(1, nterms)` of the final spin sort over an array of operators -/
+def spinSweep (nterms : Nat) : Nat → Array (Nat × Bool × Nat) × Bool × Bool → Array (Nat × Bool × Nat) × Bool × Bool
+  | 0, st => st
+  | k+1, st =>
+    let j := nterms - (k + 1)                  -- j runs 1 .. nterms-1 as k+1 runs nterms-1 .. 1
+    let (c, neg, ch) := st
+    let sl := fun (i : Nat) => (c.getD i (0, false, 0)).2.2
+    let (c, neg, ch) := if sl (j - 1) > sl j then (c.swapIfInBounds (j - 1) j, !neg, true) else (c, neg, ch)
+    let sl := fun (i : Nat) => (c.getD i (0, false, 0)).2.2
+    let (c, neg, ch) :=
+      if sl (j - 1 + nterms) > sl (j + nterms) then (c.swapIfInBounds (j - 1 + nterms) (j + nterms), !neg, true) else (c, neg, ch)
+    spinSweep nterms k (c, neg, ch)
+
+def spinSort (nterms : Nat) : Nat → Array (Nat × Bool × Nat) × Bool → Array (Nat × Bool × Nat) × Bool
+  | 0, st => st
+  | fuel+1, (c, neg) =>
+    let (c', neg', ch) := spinSweep nterms (nterms - 1) (c, neg, false)
+    if ch then spinSort nterms fuel (c', neg') else (c', neg')
+
+def finishSF (it : WItemSF) : WItemSF :=
+  let nterms := it.ops.length / 2
+  let (c, neg) := spinSort nterms (it.ops.length * it.ops.length + 1) (it.ops.toArray, it.neg)
+  ⟨it.deltas, c.toList, neg, it.twos⟩
+
+/-- normal form of a spin-free pattern `(label, dagger)`, slots = position mod rank -/
+def wickNormalFormSF (pattern : List (Nat × Bool)) : List WItemSF :=
+  let rank := pattern.length / 2
+  let ops := pattern.zipIdx.map (fun (o, i) => (o.1, o.2, if rank = 0 then 0 else i % rank))
+  (wnormalizeSF (pattern.length * pattern.length + 1) [⟨[], ops, false, 0⟩]).map finishSF
+
+end Model
